@@ -38,9 +38,12 @@ Whos(ps) == {ps[j][1] : j \in 1..Len(ps)}
 
 Verdict ==
   IF Whos(Pred) # Whos(Obs) THEN <<"DRIFT", "processes">>
+  ELSE IF Traces[tid].stat.known /\ mon.stat.sums # Traces[tid].stat.sums THEN <<"DRIFT", "summary-lines">>
+  ELSE IF Traces[tid].stat.known /\ (mon.stat.layers # 1) # Traces[tid].stat.hasTotal
+       THEN <<"DRIFT", "total-line">>
   ELSE LET bad == {x \in Whos(Pred) : LogOf(Pred, x) # LogOf(Obs, x)}
        IN IF bad = {} THEN <<"OK", "">> ELSE <<"DRIFT", CHOOSE x \in bad : TRUE>>
 
 Report == Done => PrintT(<<"RUNI", Traces[tid].id, Verdict[1], Verdict[2],
-                            IF Verdict[1] = "OK" THEN <<>> ELSE Pred>>)
+                            IF Verdict[1] = "OK" THEN <<>> ELSE <<Pred, mon.stat>>>>)
 =============================================================================
